@@ -83,7 +83,7 @@ type item struct {
 // readAll runs sse.Read over the stream with the given plan. stop = index of the item at
 // which the consumer returns false (-1: never).
 func readAll(stream []byte, plan Plan, cfg *sse.ReadConfig, stop int, endErr error) (items []item, extraCalls int, cr *chunkReader) {
-	cr = &chunkReader{data: stream, plan: plan, endErr: endErr}
+	cr = &chunkReader{Data: stream, Plan: plan, EndErr: endErr}
 	stopped := false
 	sse.Read(cr, cfg)(func(e sse.Event, err error) bool {
 		if stopped {
@@ -199,7 +199,7 @@ func classifyStream(v *stats.Verdict, stream []byte, plan Plan, ref oracle.Resul
 			v.Class("bom-not-at-0")
 		}
 	}
-	for _, c := range plan.cuts(len(stream)) {
+	for _, c := range plan.Cuts(len(stream)) {
 		if stream[c-1] == '\r' {
 			v.Class("cr-at-chunk-edge")
 			if stream[c] == '\n' {
@@ -246,7 +246,7 @@ func checkC01(t *testing.T, c C01Case) *stats.Verdict {
 		return v
 	}
 	v.Class("entry:" + c.Entry)
-	cuts := c.Plan.cuts(len(stream))
+	cuts := c.Plan.Cuts(len(stream))
 	var cfg *sse.ReadConfig
 	bufMax := 0
 	if c.Big {
